@@ -432,7 +432,9 @@ class CoreData:
                 skey = key.evolve(subproject=subproject)
                 self.optstore.add_compiler_option(lang, skey, self.optstore.get_value_object(key))
 
-        for key in comp.base_options:
+        # base_options is a set: iterate in a stable order so that the option
+        # store (and everything listing it) does not depend on hash randomisation
+        for key in sorted(comp.base_options, key=str):
             if subproject:
                 skey = key.evolve(subproject=subproject)
             else:
